@@ -48,6 +48,7 @@ func init() {
 	wrap("C02", c02R11, "R11 (added): the NSEC covering predicate consults an ancestor/descendant relation between the record's next name and the tested name and answers true on no path where next lies below the name — a name with something beneath it exists as an empty non-terminal and cannot be denied (RFC 4592 §2.2.2, RFC 8198 App. B).")
 	wrap("C01", c01R13, "R13 (added): in answer() and authority() the DS set handed to isZoneSecure / findDS / provenInsecureDelegation can come from the root trust anchors (dsRRFromRootKeys) — an empty set at the root means 'no referral followed yet', never 'insecure'.")
 	wrap("C07", c07R9, "R9 (added): a positive reply is relayed by Resolver.resolve only after its answer section was filtered to the zone that was asked (dnsutil.FilterRRsToZone on resp.Answer) — records a server volunteers about names outside its zone reach neither the client nor the NS-address collector.")
+	wrap("C15", c15R8, "R8 (added): the window of the pooled buffer a message is packed into is zeroed (builtin clear on a slice of packState.buf) before anything is written to it — the library's packers advance over octets they do not write, so an unzeroed pooled buffer shows through inside the payload.")
 	wrap("C13", c13R9, "R9 (added): Resolver.lookup gives up on a zone's remaining servers only for NXDOMAIN — after a failing reply is recorded, every path to the fallback verdict (which the caller turns into a zone failure) goes round the server loop again or crosses Rcode == NameError.")
 	wrap("C13", c13Extra, "R8 (added): a stored failure is turned into a hit (failureEntry.hit) only behind now.Before(<that entry>.retryAfter) — on the Msg and the wire lookup alike — so suppression ends with the backoff.")
 	wrap("C09", c09Extra, "R10 (added): tombstone precedence is unconditional — in the sweep over the loaded state and in the merge loops, the only conditions that may skip a tombstone check are the entry's own Revoked/Removed marker state.")
@@ -2030,4 +2031,77 @@ func c07R9(c *Ctx) {
 		return
 	}
 	c.violation(R, key, fn.Pos(), "a reply's answer section reaches Resolver.answer (and from there the client and the NS-address collector) without being filtered to the zone that was asked: `www.example.com. CNAME host.victim.net.` + `host.victim.net. A 6.6.6.6` from the example.com. servers is relayed as the answer; path "+bad)
+}
+
+// C15-R8: unwritten octets inside the payload read zero, as in the library's fresh array.
+func c15R8(c *Ctx) {
+	const R = "C15-R8"
+	c.Doc(R, "packState.packInto: every write into the pooled buffer (binary.BigEndian.PutUint16 on it, packQuestion, dns.PackRR) is preceded on every path by builtin clear applied to a slice of packState.buf (in packInto itself, or in TryPack/PackClone before packInto is called): dns.Msg.Pack packs into a freshly zeroed array and some library packers skip octets without writing them (an A record holding a 16-byte non-IPv4 address advances 4 octets and copies none), so without the clear those octets are whatever the previous message left in the pool")
+	fn := c.fn(R, "internal/wire.(*packState).packInto")
+	bufF := c.field(R, "internal/wire.packState.buf")
+	packRR := c.fobj(R, "github.com/miekg/dns.PackRR")
+	if fn == nil || bufF == nil || packRR == nil {
+		return
+	}
+	isClearBuf := func(in ssa.Instruction) bool {
+		cl, ok := in.(*ssa.Call)
+		if !ok || len(cl.Call.Args) != 1 {
+			return false
+		}
+		b, ok := cl.Call.Value.(*ssa.Builtin)
+		if !ok || b.Name() != "clear" {
+			return false
+		}
+		return Contains(FieldIs(bufF))(Desc(cl.Call.Args[0]))
+	}
+	cleared := Barrier{Name: "clear(state.buf[…])", Instr: isClearBuf}
+	writes := func(in ssa.Instruction) bool {
+		if in.Parent() != fn {
+			return false
+		}
+		if isPlainCallTo(packRR)(in) {
+			return true
+		}
+		cc := callCommon(in)
+		if cc == nil {
+			return false
+		}
+		if fo, _, _ := calleeObj(cc); fo != nil && (fo.Name() == "PutUint16" || fo.Name() == "packQuestion") {
+			for _, a := range cc.Args {
+				if Contains(FieldIs(bufF))(Desc(a)) {
+					return true
+				}
+			}
+		}
+		return false
+	}
+	key := R + "|packInto|pooled window zeroed before the first write"
+	own := true
+	for _, in := range instrsWhere(fn, writes) {
+		if ug, _ := c.unguarded(in, []Barrier{cleared}, fn); ug {
+			own = false
+		}
+	}
+	if len(instrsWhere(fn, writes)) == 0 {
+		c.unresolved(R, "packInto|writes", "no write into the pooled buffer found")
+		return
+	}
+	if own {
+		c.ok(R, key, fn.Pos(), "packInto clears the window it packs into")
+		return
+	}
+	// alternatively every caller clears before calling packInto
+	fo := funcObjOf(fn)
+	sites := c.CallSites(fo)
+	viaCallers := len(sites) > 0
+	for _, s := range sites {
+		if ug, _ := c.unguarded(s.Instr, []Barrier{cleared}, TopLevel(s.Fn)); ug {
+			viaCallers = false
+		}
+	}
+	if viaCallers {
+		c.ok(R, key, fn.Pos(), "every caller clears the window before packInto")
+		return
+	}
+	c.violation(R, key, fn.Pos(), "the pooled buffer is written without being zeroed first: octets the library's packers skip (A/L32 with a 16-byte non-IPv4 address, IPSECKEY/AMTRELAY IPv4 gateways) carry the previous message's bytes inside the payload handed to the transport and stored by the cache")
 }
